@@ -26,6 +26,27 @@ def streams(rng, tier, ctx):
             it.op("=== gen%d" % i)
             if i % 4 == 3:
                 sim = c01.long_lead_scenario(r, it)
+            elif i % 8 == 6:
+                # a Reliable packet that has its sequence id but cannot be sent: the (small) frame window is full of frames that
+                # carried only Unreliable data and were all swallowed by a blackout; the sync timer fires during the blackout and
+                # after it; then the network is fair. The packet must still be delivered (exactly once).
+                cfg = pick_cfg(r); cfg["fw"] = r.pick([4, 4, 8]); cfg["pw"] = 64; cfg["bwA"] = cfg["bwB"] = 20_000_000
+                cfg["allocA"] = cfg["allocB"] = 1_000_000
+                sim = Sim(r, cfg, inter=it)
+                lat = r.pick([0, 1_000_000])
+                ok = Net(latency=lat); dead = Net(loss=1000)
+                def warm(sim, ep):
+                    if ep == "A" and sim.tick < 40:
+                        sim.send("A", r.below(3), r.pick([1, 3]), 1000)
+                sim.run(70, 5_000_000, ok, ok, warm)
+                for _ in range(cfg["fw"] + r.pick([0, 1, 2])):
+                    sim.send("A", r.below(3), 1, r.pick([1400, 1448, 1200]))       # one frame each, never re-sent
+                for _ in range(r.range(1, 3)):
+                    sim.send("A", r.below(3), 3, r.pick([4, 100, 1448, 3000]))
+                sim.run(int(r.pick([2_200, 3_000, 5_000]) * 10**6 // 50_000_000), 50_000_000, dead, dead)
+                sim.run(r.range(40, 80), 50_000_000, ok, ok)
+                sim.latency = lat
+                sim.meta = {"cfg": cfg}
             else:
                 cfg = pick_cfg(r)
                 sim = H.lossy_scenario(r, it, tier, small_volume=True, cfg=cfg, modes=(0, 1, 2, 3, 3), max_len=2000)
